@@ -702,7 +702,20 @@ class Executor(object):
         b = self.ev(e.right, st)
         return self.binop(st, e.op, a, b, getattr(e, "lineno", None))
 
+    typeerror_caught = 0   # > 0 while executing the body of a `try` that has a handler for TypeError
+
     def binop(self, st, op, a, b, ln):
+        if self.typeerror_caught and not self.spec and a.kind != "none" and b.kind != "none" and (a.none is not None or b.none is not None) \
+                and a.kind in ("int", "real") and b.kind in ("int", "real"):
+            # arithmetic on a value that may be None inside `try: ... except TypeError:` -- None raises TypeError
+            # (an exceptional exit the handler takes), the normal path continues with both operands present
+            isn = z3.Or(*[x.none for x in (a, b) if x.none is not None])
+            x = st.copy()
+            x.assume(z3.And(*self.guard, isn) if self.guard else isn)
+            self.pending_raises.append(Exit("raise", x, exc="TypeError", lineno=ln))
+            st.assume(z3.Implies(z3.And(*self.guard), z3.Not(isn)) if self.guard else z3.Not(isn))
+            a = SV(a.kind, a.t, cls=a.cls)
+            b = SV(b.kind, b.t, cls=b.cls)
         self.require_not_none(st, a, "left operand of %s" % type(op).__name__, ln)
         self.require_not_none(st, b, "right operand of %s" % type(op).__name__, ln)
         if a.kind == "none" or b.kind == "none":
@@ -799,6 +812,9 @@ class Executor(object):
                 # identity of scalars: None-identity, and value identity (small ints / interned strings)
                 an, bn = self.is_none(a), self.is_none(b)
                 r = z3.Or(z3.And(an, bn), z3.And(z3.Not(an), z3.Not(bn), self._eq(a, b)))
+            elif {a.kind, b.kind} in ({"real", "bool"}, {"int", "bool"}):
+                # a number is never the True/False singleton (the sidecar type says it is a number or None)
+                r = z3.BoolVal(False)
             else:
                 raise Unsupported("is between %s and %s" % (a.kind, b.kind))
             return z3.Not(r) if neg else r
